@@ -64,8 +64,8 @@ CLAIMED["C11"] = ("§3 C11",
     "third-party emitters honour styles and raw scalars")
 
 CLAIMED["C19"] = ("§3 C19",
-    "lockset guarded-by analysis for package-level and struct-field state with alias normalisation, double-checked-insertion rule, post-init global-write scan over the API import closure, cache type and field-write ownership checks, OpContext creation who-may-call",
-    "Decides that the runtime's shared label table and import index are accessed only under their locks (write lock for writes) and that optimistic insertions re-check under the write lock, that no other package-level variable of the API import closure is written after init unless it is a sync/atomic type or reviewed, that caches are concurrency-safe types whose published values are written only by their constructors, that the shared structs hold no OpContext or Pool, and that package cue creates an OpContext only in newContext, fresh per call. It does not decide lazy finalisation of shared vertices under concurrent readers.",
+    "lockset guarded-by analysis for package-level and struct-field state with alias normalisation, double-checked-insertion rule, post-init global-write scan over the API import closure, cache type and field-write ownership checks, OpContext creation who-may-call, copy-on-write rules (field writes only on local copies / fresh constructors, shallow-copy slice aliasing, unprotected append on by-value types)",
+    "Decides that the runtime's shared label table and import index are accessed only under their locks (write lock for writes) and that optimistic insertions re-check under the write lock, that no other package-level variable of the API import closure is written after init unless it is a sync/atomic type or reviewed, that caches are concurrency-safe types whose published values are written only by their constructors, that the shared structs hold no OpContext or Pool, that package cue creates an OpContext only in newContext, fresh per call; and a copy-on-write discipline: immutable fields of adt.Environment are written only on a local copy or a fresh Environment, slice fields of shallow Vertex copies are replaced (never re-sliced in place) and their elements written only after replacement by a fresh slice, by-value API types never append into their own backing array unprotected, and no API read path finalizes a pattern-constraint vertex of a shared value in place. Two genuine defects found by these rules were repaired in /repo (ToDataAll rewrote the conjuncts of the shared vertex; Path.Append aliased its backing array), one is recorded as a known finding (Iterator.Next finalizes pattern constraints lazily). It does not decide lazy finalisation of other shared vertices under concurrent readers.",
     "alias-precise ownership of *adt.Vertex is out of reach (no pointer analysis)")
 
 CLAIMED["C17"] = ("§3 C17",
